@@ -80,13 +80,13 @@ ALPHAS = {
                  gc_on=_OLD_TARGETS, link=True, dup=True, resize=True, collect=[("collect",)]),
     # gaps 2, 3, 7 of the audit: allocation kinds and failing allocations, every op on every object
     "alloc": dict(create=[("news",), ("newa",), ("newp",)] + [("newx", "alloc", s) for s in ("u", "v", "o", "i", "sa")]
-                  + [("newx", "new", s) for s in ("u", "v", "o")],
+                  + [("newx", "new", s) for s in ("u", "v", "o")] + [("newh", "a"), ("newh", "s")],
                   dk=("plain", "cycle"), gc_on=_OLD_TARGETS + ("newq",), wide=True,
                   probes=[("bad", "init"), ("bad", "alloc")], collect=[("collect",), ("collect", 0)]),
     # gap 5 (+3): destructor kinds, with-bodies that raise
     "dtor": dict(create=[("news",), ("newa",), ("newp",)],
                  dk=DK_OLD + ("raises", "cb", "method", "partial"), gc_on=_OLD_TARGETS, link=True, wide=True,
-                 with_raise=True, collect=[("collect",), ("collect", 0)]),
+                 with_raise=True, drop_raise=True, collect=[("collect",), ("collect", 0)]),
     # gap 4: from_buffer forms and sources, gc over them, buffer views, cycles through the source
     "buf": dict(create=[("fb",)] + [("fbx", f, s) for s in FB_SRCS for f in FB_FORMS if (f, s) != ("", "ba")],
                 dk=("plain", "cycle", "cb"), gc_on=("fb", "gc"), wide=True, with_raise=True, dup=True, resize=True,
@@ -118,6 +118,22 @@ class Rec(object):
         self.src = kw.get("src")        # fb: source kind
         self.form = kw.get("form")      # fb: from_buffer form
         self.tied = False               # fb: the source references the fb object (a cycle)
+        self.held = False               # allocation: its free function references the object (a cycle)
+
+
+class _Counters(object):
+    """Everything the destructors / alloc / free functions write to.  They must not reference the Sys object: the Sys
+    holds the objects under test, and a pointer from new_allocator()("struct *") is not visited by the cyclic GC, so
+    Sys -> slot -> p -> struct object -> free function -> Sys would never be collected (see the 'newh' operation)."""
+
+    def __init__(self):
+        self.dcalls = {}                     # gc wrapper id -> list of args seen
+        self.frees = {}                      # allocation id -> count
+        self.nallocs = {}                    # allocation id -> number of alloc() calls
+        self.addr2alloc = {}
+        self.backing = {}                    # allocation id -> weakref to the owning char[] returned by alloc()
+        self.pending = None                  # allocation id of the allocator call in progress
+        self.err = None                      # a violation seen inside a destructor
 
 
 class _Expected(Exception):
@@ -147,12 +163,8 @@ class Sys(object):
         self.mslots = [None] * NSLOT         # model: object ids
         self.recs = {}
         self.nid = 0
-        self.dcalls = {}                     # gc wrapper id -> list of args seen
-        self.frees = {}                      # allocation id -> count
-        self.nallocs = {}                    # allocation id -> number of alloc() calls
-        self.addr2alloc = {}
-        self.backing = {}                    # allocation id -> weakref to the owning char[] returned by alloc()
-        self.pending = None                  # allocation id of the allocator call in progress
+        C = self.C = _Counters()
+        self.dcalls, self.frees, self.nallocs, self.backing = C.dcalls, C.frees, C.nallocs, C.backing
         self.collected = set()               # ids that were unreachable at a full collection
         self.fblog = {}                      # fb id -> ["get" | "rel", ...] of its private PEP 688 source
         self.fbwr = {}                       # fb id -> weakref to that source
@@ -160,36 +172,10 @@ class Sys(object):
         self.hid = {}                        # handle id -> id() of its private target
         self.shared = {}                     # shared from_buffer sources, created on first use
         self.outcome = None                  # classification of the last operation (evidence counters)
+        self._keeps = []                     # weakrefs to the `keep` cells of 'newh' (see __del__)
         self._cells = weakref.WeakValueDictionary()
         self._weakref = weakref
-        sysref = self
-        iffi = _FFIS["inline"]               # harness-internal casts
-
-        def note_alloc(p, backing):
-            oid = sysref.pending
-            sysref.addr2alloc[int(iffi.cast("intptr_t", p))] = oid
-            sysref.nallocs[oid] = sysref.nallocs.get(oid, 0) + 1
-            if backing:
-                sysref.backing[oid] = weakref.ref(p)
-
-        def alloc_raw(size):
-            p = _RAW.malloc(size)
-            note_alloc(p, False)
-            return p
-
-        def alloc_own(size):
-            p = iffi.new("char[]", size)        # the idiom of the documentation: an owning cdata
-            note_alloc(p, True)
-            return p
-
-        def free_raw(p):
-            oid = sysref.addr2alloc.get(int(iffi.cast("intptr_t", p)))
-            sysref.frees[oid] = sysref.frees.get(oid, 0) + 1
-            _RAW.free(p)
-
-        def free_own(p):
-            oid = sysref.addr2alloc.get(int(iffi.cast("intptr_t", p)))
-            sysref.frees[oid] = sysref.frees.get(oid, 0) + 1
+        alloc_raw, alloc_own, free_raw, free_own = _alloc_functions(C)
         if self.allocator == "raw":
             self.alloc = ffi.new_allocator(alloc_raw, free_raw, should_clear_after_alloc=True)
         elif self.allocator == "owning":
@@ -205,7 +191,6 @@ class Sys(object):
         self.shared["ba"] = self.ba
         self.pyobjs = [_Obj("o0"), _Obj("o1")]
         self.hcd = None
-        self.err = None
         if self.mode == "auto":
             _gc.set_threshold(1, 1, 1)          # a young collection at (almost) every container allocation
             _gc.enable()
@@ -214,6 +199,14 @@ class Sys(object):
         for op in cfg.get("prebuilt", ()):       # start from a non-initial state
             if self._apply(_tuplify(op)) is not None:
                 raise InfraError("prebuilt state failed")
+
+    def __del__(self):
+        # Housekeeping, after everything was checked: the cycles made by 'newh' on "struct *" are never collected
+        # (that is the finding); break them by hand so that the garbage of one history does not slow down the next.
+        for w in self._keeps:
+            c = w()
+            if c is not None:
+                c.ref = None
 
     # ---- model helpers ----------------------------------------------------
     def _new_id(self):
@@ -257,6 +250,8 @@ class Sys(object):
             return r.dkind in DK_CYCLE and not (r.released or r.cancelled or r.ran)
         if r.kind == "fb":
             return r.tied and not r.released
+        if r.kind in ("news", "newa"):
+            return r.held and not (r.released or r.cancelled or r.ran)       # while the free function is attached
         if r.kind == "handle":
             return r.k == "self"
         return False
@@ -337,6 +332,8 @@ class Sys(object):
                 if self._bottom(r.oid).kind != "alias":
                     ops.append(("buf", i))
             ops.append(("drop", i))
+            if A.get("drop_raise"):
+                ops.append(("drop_raise", i))
             if fs is not None and A.get("dup"):
                 ops.append(("dup", i))
         ops += A["collect"]
@@ -373,8 +370,11 @@ class Sys(object):
 
     def _make_destructor(self, oid, dk, cell, bottom):
         """Returns (destructor, holder)."""
-        sysref = self
+        sysref = self.C           # NOT the Sys object
         ffi = self.ffi
+        want_id = self.hid.get(bottom.oid)
+        want = None if (want_id is not None or bottom.kind != "handle") else self._hexpect(bottom)
+        hkind = str(bottom.k)
 
         def plain(x):
             sysref.dcalls.setdefault(oid, []).append(1)
@@ -410,9 +410,6 @@ class Sys(object):
             import functools
             return functools.partial(_count_call, sysref, oid), None
         if dk == "fromh":
-            want_id = self.hid.get(bottom.oid)
-            want = None if want_id is not None else self._hexpect(bottom)
-
             def fromh(x):
                 sysref.dcalls.setdefault(oid, []).append(1)
                 try:
@@ -421,7 +418,7 @@ class Sys(object):
                     sysref.err = {"kind": "from_handle-failed-in-destructor", "error": repr(e)}
                     return
                 if (id(got) != want_id) if want_id is not None else (got is not want):
-                    sysref.err = {"kind": "from_handle-wrong-object-in-destructor", "hkind": str(bottom.k)}
+                    sysref.err = {"kind": "from_handle-wrong-object-in-destructor", "hkind": hkind}
             return fromh, None
         return {"cycle": cyc, "re_release": re_release, "re_gcnone": re_gcnone, "raises": raises}[dk], None
 
@@ -439,11 +436,11 @@ class Sys(object):
         ctype, init, struct_like = SHAPES[shape]
         oid = self._new_id()
         if via == "alloc":
-            self.pending = oid
+            self.C.pending = oid
             try:
                 p = self.alloc(ctype) if init is None else self.alloc(ctype, init)
             finally:
-                self.pending = None
+                self.C.pending = None
             kind = "news" if struct_like else "newa"
             if self.allocator == "default":
                 cls, has_free = "D", False
@@ -495,6 +492,30 @@ class Sys(object):
                 oid, p = self._create("new" if k == "newp" else "alloc", "a" if k == "newa" else "s")
             self.slots[i] = p
             self.mslots[i] = oid
+            return None
+        if k == "newh":
+            # an allocator whose free function references (through `keep`) the object it allocated; nothing else
+            # references the allocator, the free function or `keep`
+            i = self._free_slot()
+            ctype, init, struct_like = SHAPES[op[1]]
+            oid = self._new_id()
+            keep = _Cell()
+            _, a_own, _, f_own = _alloc_functions(self.C, keep)
+            al = ffi.new_allocator(a_own, f_own)
+            self.C.pending = oid
+            try:
+                p = al(ctype)
+            finally:
+                self.C.pending = None
+            keep.ref = p
+            self._keeps.append(self._weakref.ref(keep))
+            _fill(p, op[1])
+            r = self.recs[oid] = Rec(oid, "news" if struct_like else "newa", shape=op[1],
+                                     cls="A" if struct_like else "B", has_free=True)
+            r.held = True
+            self.slots[i] = p
+            self.mslots[i] = oid
+            del p, al, keep, a_own, f_own
             return None
         if k in ("fb", "fbx", "handle"):
             i = self._free_slot()
@@ -657,6 +678,23 @@ class Sys(object):
             self.slots[op[1]] = None
             self.mslots[op[1]] = None
             return None
+        if k == "drop_raise":
+            # the last reference is a temporary argument of a C function that fails: the object dies (and its
+            # destructor runs) while the error indicator is set; that exception must arrive unchanged.  (A Python
+            # frame left by an exception does not do: the traceback keeps the frame's locals alive.)
+            import operator
+            box = [self.slots[op[1]]]
+            self.slots[op[1]] = None
+            self.mslots[op[1]] = None
+            try:
+                operator.index(box.pop())        # no cdata pointer / array / struct / buffer has __index__
+            except TypeError:
+                pass
+            except BaseException as e:
+                return {"kind": "exception-lost-while-object-died", "op": op, "error": repr(e)[:200]}
+            else:
+                return {"kind": "exception-lost-while-object-died", "op": op, "error": None}
+            return None
         if k == "collect":
             if len(op) == 1:
                 _gc.collect()
@@ -699,7 +737,7 @@ class Sys(object):
                  ("struct c21v *", [1, [1, 2, "x"]]), ("union c21u *", {"nosuch": 1})]
         for ct, init in cases:
             oid = self._new_id()
-            self.pending = oid
+            self.C.pending = oid
             try:
                 self.alloc(ct, init)
             except Exception:
@@ -707,7 +745,7 @@ class Sys(object):
             else:
                 raise InfraError("assumption broken: initializer %r accepted for %s" % (init, ct))
             finally:
-                self.pending = None
+                self.C.pending = None
             if self.allocator == "default":
                 continue
             na, nf = self.nallocs.get(oid, 0), self.frees.get(oid, 0)
@@ -776,13 +814,14 @@ class Sys(object):
 
     # ---- checking ---------------------------------------------------------
     def _check(self, final):
-        if self.err is not None:
-            return dict(self.err)
+        if self.C.err is not None:
+            return dict(self.C.err)
         if _UNRAISABLE:
             msgs = list(_UNRAISABLE)
             del _UNRAISABLE[:]
             return {"kind": "unexpected-unraisable-error", "errors": msgs[:3]}
         live, maybe, _ = self._status()
+        deferred = None
         for oid, r in self.recs.items():
             if r.kind == "gc":
                 n = len(self.dcalls.get(oid, ()))
@@ -814,7 +853,11 @@ class Sys(object):
                 elif r.released and n != (1 if r.ran else 0):
                     return {"kind": "free-not-run-at-release", "obj": oid, "okind": okind, "calls": n}
                 elif final and n != (0 if r.cancelled else 1):
-                    return {"kind": "allocation-never-freed", "obj": oid, "okind": okind}
+                    info = {"kind": "allocation-never-freed", "obj": oid, "okind": okind,
+                            "cycle": "free-function->object" if r.held else None}
+                    if not r.held:
+                        return info
+                    deferred = info          # reported only if nothing else is wrong in this history
                 wr = self.backing.get(oid)
                 if wr is not None and oid in live and not r.released and wr() is None:
                     return {"kind": "backing-store-died-while-referenced", "obj": oid, "okind": okind}
@@ -858,7 +901,7 @@ class Sys(object):
                     return {"kind": "handle-target-died-while-handle-alive", "obj": oid, "hkind": str(r.k)}
                 if self.ffi.from_handle(x) is not want:
                     return {"kind": "from_handle-wrong-object", "obj": oid, "hkind": str(r.k)}
-        return None
+        return deferred
 
     def key(self):
         # model state: slot contents as canonical descriptors (ids renumbered by first occurrence)
@@ -882,7 +925,7 @@ class Sys(object):
             n = len(self.dcalls.get(oid, ())) if r.kind == "gc" else self.frees.get(oid, 0)
             held = r.kind == "gc" and not (r.released or r.cancelled or r.ran)
             descs.append((r.kind, r.shape, r.cls, r.dkind, r.cancelled, r.ran, r.released, r.maybe, str(r.k), n,
-                          r.src, r.form, r.tied, len(self.fblog.get(oid, ())),
+                          r.src, r.form, r.tied, r.held, len(self.fblog.get(oid, ())),
                           num(r.target), num(r.link) if held else None))
         return (slots, tuple(descs), self._status()[2], self.mode)
 
@@ -908,6 +951,41 @@ class Sys(object):
             info["cfg"] = self._plain_cfg()
         # the Sys object itself must not keep wrappers alive through the closures
         return info
+
+
+def _alloc_functions(C, keep=None):
+    """alloc / free functions that count into C (and reference `keep`, if given)."""
+    import weakref
+    iffi = _FFIS["inline"]               # harness-internal casts
+
+    def note_alloc(p, backing):
+        oid = C.pending
+        C.addr2alloc[int(iffi.cast("intptr_t", p))] = oid
+        C.nallocs[oid] = C.nallocs.get(oid, 0) + 1
+        if backing:
+            C.backing[oid] = weakref.ref(p)
+
+    def alloc_raw(size):
+        p = _RAW.malloc(size)
+        note_alloc(p, False)
+        return p
+
+    def alloc_own(size):
+        p = iffi.new("char[]", size)        # the idiom of the documentation: an owning cdata
+        note_alloc(p, True)
+        return p
+
+    def free_raw(p):
+        oid = C.addr2alloc.get(int(iffi.cast("intptr_t", p)))
+        C.frees[oid] = C.frees.get(oid, 0) + 1
+        _RAW.free(p)
+        keep
+
+    def free_own(p):
+        oid = C.addr2alloc.get(int(iffi.cast("intptr_t", p)))
+        C.frees[oid] = C.frees.get(oid, 0) + 1
+        keep
+    return alloc_raw, alloc_own, free_raw, free_own
 
 
 def _tuplify(o):
@@ -1064,6 +1142,17 @@ def _work(item):
     try:
         st = hist.explore(Sys, cfg, depth, d0)
         st.outcomes = dict(_OUT)
+        # one root cause can fail in every history that contains it: send back at most MAX_PER_SIG histories per
+        # classification and count the rest
+        kept, per, st.suppressed = [], {}, 0
+        for h, info in st.violations:
+            sk = tuple(str(info.get(k)) for k in ("kind", "dkind", "okind", "cycle", "hkind", "form", "src"))
+            per[sk] = per.get(sk, 0) + 1
+            if per[sk] <= MAX_PER_SIG:
+                kept.append((h, info))
+            else:
+                st.suppressed += 1
+        st.violations = kept
         return st
     finally:
         hist._journal.close()
@@ -1072,6 +1161,7 @@ def _work(item):
         _gc.disable()
 
 
+MAX_PER_SIG = 25
 CHAIN = [["news"], ["gc", 0, "plain"], ["gc", 1, "plain"]]
 FRONTS = ("inline", "ool")
 MODES = ("none", "every", "auto")
@@ -1086,7 +1176,7 @@ def _plans(quick):
             ("core", 4, 2, None, FRONTS, MODES, ("raw",)),
             ("core", 3, 3, CHAIN, FRONTS, MODES, ("raw",)),
             ("alloc", 3, 3, None, FRONTS, ("none", "every"), ALLOCATORS),
-            ("dtor", 3, 3, None, FRONTS, MODES, ("raw",)),
+            ("dtor", 4, 3, None, FRONTS, MODES, ("raw",)),
             ("buf", 3, 3, None, FRONTS, MODES, ("raw",)),
             ("handle", 3, 3, None, FRONTS, MODES, ("raw",)),
         ]
@@ -1124,6 +1214,7 @@ def run(ctx):
     per_plan = {}
     per_axis = {}
     crashes = []
+    suppressed = 0
     for item, r in pool.pmap(_work, [[it] for it in items], contain_crashes=True, item_timeout=3600):
         if isinstance(r, pool.WorkerError):
             raise InfraError(r.tb)
@@ -1131,6 +1222,7 @@ def run(ctx):
             crashes.append((item, r, hist._read_journal(item)))
             continue
         total.merge(r)
+        suppressed += r.suppressed
         for k, v in r.outcomes.items():
             outcomes[k] = outcomes.get(k, 0) + v
         cfg = item[0]
@@ -1149,12 +1241,15 @@ def run(ctx):
     for h, info in total.violations:
         cfg = info.get("cfg") or {}
         sig = {"kind": info.get("kind"), "dkind": info.get("dkind"), "okind": info.get("okind")}
-        for k in ("hkind", "form", "src", "allocator"):
+        for k in ("hkind", "form", "src", "allocator", "cycle"):
             if info.get(k) is not None:
                 sig[k] = info[k]
         if cfg.get("alpha") not in ("full", "core"):
             sig["alpha"] = cfg.get("alpha")
         ctx.violation(sig, {"history": h, "info": info, "cfg": cfg})
+    if suppressed:
+        ctx.count("violating_histories_not_listed(more than %d with the same classification in one work item)"
+                  % MAX_PER_SIG, suppressed)
     for k, v in sorted(total.op_hist.items()):
         ctx.count("op_" + str(k), v)
     if "bad" in total.op_hist:
